@@ -143,3 +143,28 @@ def parser_entry_resets(prog, chk, rid, priv, fileend):
             chk.bad(rid, entry, "parser-state-not-reset:" + fld.replace("this->", ""), where,
                     "`%s` is advanced by the tokenizer but not set again at the start of parse(): a Parser object that is used for a second document "
                     "continues from the previous document's value (error positions beyond the text)" % fld.replace("this->", ""))
+
+
+class Only:
+    """forwards the events of one rule of another property's module under a new rule id (a rule that decides clauses of two properties)"""
+    def __init__(self, chk, src, dst):
+        self.chk, self.src, self.dst = chk, src, dst
+        self.extra, self.assumptions = {}, []
+
+    def rule(self, rid, text, floor=1):
+        if rid == self.src:
+            self.chk.rule(self.dst, text, floor)
+
+    def ok(self, rid, *a, **k):
+        if rid == self.src:
+            self.chk.ok(self.dst, *a, **k)
+
+    def bad(self, rid, *a, **k):
+        if rid == self.src:
+            self.chk.bad(self.dst, *a, **k)
+
+    def note(self, t):
+        pass
+
+    def broke(self, t):
+        self.chk.broke(t)
